@@ -22,22 +22,50 @@ macro_rules! __lazy {
 
 #[inline]
 pub(crate) fn borrow<T: ?Sized>(cell: &CellImpl<T>) -> BorrowImpl<'_, T> {
+    #[cfg(koto_verif)]
+    crate::verif::lock_intent(
+        cell as *const CellImpl<T> as *const u8 as usize,
+        crate::verif::LockIntent::Read,
+        &|| cell.try_read().is_some(),
+        &|| cell.try_write().is_some(),
+    );
     parking_lot::RwLockReadGuard::map(cell.read(), |x| x)
 }
 
 #[inline]
 pub(crate) fn try_borrow<T: ?Sized>(cell: &CellImpl<T>) -> Option<BorrowImpl<'_, T>> {
+    #[cfg(koto_verif)]
+    crate::verif::lock_intent(
+        cell as *const CellImpl<T> as *const u8 as usize,
+        crate::verif::LockIntent::TryRead,
+        &|| cell.try_read().is_some(),
+        &|| cell.try_write().is_some(),
+    );
     cell.try_read()
         .map(|g| parking_lot::RwLockReadGuard::map(g, |x| x))
 }
 
 #[inline]
 pub(crate) fn borrow_mut<T: ?Sized>(cell: &CellImpl<T>) -> BorrowMutImpl<'_, T> {
+    #[cfg(koto_verif)]
+    crate::verif::lock_intent(
+        cell as *const CellImpl<T> as *const u8 as usize,
+        crate::verif::LockIntent::Write,
+        &|| cell.try_read().is_some(),
+        &|| cell.try_write().is_some(),
+    );
     parking_lot::RwLockWriteGuard::map(cell.write(), |x| x)
 }
 
 #[inline]
 pub(crate) fn try_borrow_mut<T: ?Sized>(cell: &CellImpl<T>) -> Option<BorrowMutImpl<'_, T>> {
+    #[cfg(koto_verif)]
+    crate::verif::lock_intent(
+        cell as *const CellImpl<T> as *const u8 as usize,
+        crate::verif::LockIntent::TryWrite,
+        &|| cell.try_read().is_some(),
+        &|| cell.try_write().is_some(),
+    );
     cell.try_write()
         .map(|g| parking_lot::RwLockWriteGuard::map(g, |x| x))
 }
